@@ -20,6 +20,7 @@ def cases(tier):
     out += [("binary_num", n, 2), ("binary_num", n, 0), ("binary_num", n, -1.5), ("binary_num_default", n, None)]
     out += [("binary_cat", fv, s) for fv in ("str", "cat", "ord") for s in ("a", "b", None, "zz")]
     out += [("binary_cat_g", "str", s) for s in ("t", "u", None)]
+    out += [("binary_cat_declared", "cat", s) for s in ("Aaa", "a", None)]  # 'Aaa' is a declared category that no row has
     out += [("offset", form, rhs) for form in ("offset(z)", "offset(3)", "offset(2.5)", "offset(2 * z)", "offset(z + x)") for rhs in ("x", "x + f")]
     out += [("prop_predict", form, None) for form in ("prop(s, n)", "prop(s, 9)", "p(s, n)", "proportion(s, n)")]
     out += [("prop_validate", vals, None) for vals in ("int_ok", "float_int_ok", "noninteger_s", "noninteger_n", "s_gt_n", "s_gt_const", "trials_str")]
@@ -100,9 +101,11 @@ def harness(env, case):
         else:
             env.prove(all(float(c) == (1.0 if v == s else 0.0) for c, v in zip(col, x)), "binary(x, s) is 1 exactly where x equals s")
         return
-    if kind in ("binary_cat", "binary_cat_g"):
-        var = "f" if kind == "binary_cat" else "g"
+    if kind in ("binary_cat", "binary_cat_g", "binary_cat_declared"):
+        var = "g" if kind == "binary_cat_g" else "f"
         df, rows = gen.build_frame(env, ["y", "x", var], a, "scramble")
+        if kind == "binary_cat_declared":
+            df[var] = pd.Categorical(list(df[var]), categories=["Aaa"] + sorted(gen.LEVELS[var]))
         formula = f"y ~ x + binary({var})" if b is None else f"y ~ x + binary({var}, '{b}')"
         name = f"binary({var})" if b is None else f"binary({var}, '{b}')"
         s = sorted(gen.LEVELS[var])[0] if b is None else b
@@ -160,16 +163,18 @@ def harness(env, case):
             raise
         except ValueError:
             return  # refusal branches are covered by C15 / prop_validate
-        t2 = env.column("n2", 2, integer=True)
-        s2 = env.column("s2", 2, integer=True)
-        nd = env.frame({"s": s2, "n": t2, "x": env.column("x2", 2)})
-        if sym:
-            nd["s"] = pd.Series(s2, dtype=object)
-            nd["n"] = pd.Series(t2, dtype=object)
-        with env.running():
-            out = dm.response.evaluate_new_data(nd)
-        want = t2 if "n)" in a else np.array([9, 9], dtype=object)
-        env.prove_equal(np.asarray(out).reshape(-1), want, "prop reports the trials of the new frame at prediction")
+        for rows_new in (2, 1):
+            t2 = env.column(f"n2_{rows_new}", rows_new, integer=True)
+            s2 = env.column(f"s2_{rows_new}", rows_new, integer=True)
+            nd = env.frame({"s": s2, "n": t2, "x": env.column(f"x2_{rows_new}", rows_new)})
+            if sym:
+                nd["s"] = pd.Series(s2, dtype=object)
+                nd["n"] = pd.Series(t2, dtype=object)
+            with env.running():
+                out = dm.response.evaluate_new_data(nd)
+            want = t2 if "n)" in a else np.array([9] * rows_new, dtype=object)
+            env.prove(np.asarray(out).shape == (rows_new,), "prop at prediction: one entry per row of the new frame")
+            env.prove_equal(np.asarray(out).reshape(-1), want, "prop reports the trials of the new frame at prediction")
         return
     if kind == "prop_validate":
         table = {
